@@ -7,7 +7,9 @@ from mc.engine import Viol
 PROP = "C03"
 DIR = None
 T = {"a.txt": b"content of a", "b.txt": b"content of b", "d": DIR, "d/c.txt": b"content of c", "d/e": DIR,
-     "d/e/f.txt": b"content of f", "emp": DIR, "d/emp2": DIR}
+     "d/e/f.txt": b"content of f", "emp": DIR, "d/emp2": DIR,
+     # names that have the nested root's name as a string prefix (routing must respect component boundaries)
+     "d-proxy": DIR, "d-proxy/p.mov": b"content of p", "d.txt": b"content of d.txt"}
 FAILED_CONTENT = b"A-altered-and-recorded-as-failed"
 
 
@@ -150,7 +152,13 @@ def work(ctx, case):
 def main(tier, seed):
     eng = engine.Engine(PROP, tier, seed, "model_checking")
     engine.selftest(eng)
-    B = bases(eng.local_ctx(), tier)
+    def covers(f):
+        # every set-up step is a create on an unchanged (or, where 11 is expected, an altered) sealed tree: C03 itself
+        return Viol(PROP, "scenario-step", {"cmd": "create", "exit": f.res.exit, "want": f.want},
+                    f"while sealing a base state: {f}", {"name": "setup", "base": f.tree, "pats": [], "muts": [], "cmd": "create",
+                                                          "fmts": f.op[1].get("fmts")} if not f.op[1].get("sf") and not f.op[1].get("root") and not f.op[1].get("i") else None)
+    B = engine.scenarios(eng, lambda: bases(eng.local_ctx(), tier), covers)
+    B = {k: v for k, v in B.items() if v[0] is not None}
     cases = []
     states = set()
     for name, (tree, pats) in B.items():
